@@ -31,6 +31,13 @@ class TimeFlow(O.Monitor):
     def after(self, Q, node, etype, nxt):
         t = Q.current_time
         self.prev_clock = t
+        for nd in Q.transitive_nodes:
+            # every node must know its next event: recomputing it from the node's state must not change it
+            saved = (nd.next_event_date, nd.next_event_type)
+            nd.update_next_event_date()
+            if nd.next_event_date != saved[0] and not (saved[0] != saved[0]):
+                Q.report(self.P, "C02.next-event-date-is-up-to-date", etype, {"node": nd.id_number, "stored": O._num(saved[0]),
+                                                                              "recomputed": O._num(nd.next_event_date), "event": nd.next_event_type})
         for nd in Q.active_nodes:
             d = nd.next_event_date
             if d < t:
